@@ -29,13 +29,17 @@ def succOrderOk (t : Tbl) (ord : List Nat) : Bool :=
 /-- one tuple `(u, i, v, w)` yielded by `levels`; `v = w = None` for the terminal -/
 abbrev LevelItem := Nat × Nat × Option (Int × Int)
 
-/-- the inner loop `for u, (j, v, w) in self._succ.items(): if i != j: continue; yield u, i, v, w` -/
+/-- `(j, v, w) = self._succ[u]; if i != j: continue; yield u, i, v, w` (the terminal `1` is
+`(len(self.vars), None, None)`) -/
+def levelItem? (t : Tbl) (i : Nat) (u : Nat) : Option LevelItem :=
+  if u = 1 then (if t.nvars = i then some (1, i, none) else none) else
+  match t.succ[u]? with
+  | some n => if n.lvl = i then some (u, i, some (n.lo, n.hi)) else none
+  | none => none
+
+/-- the inner loop `for u, (j, v, w) in self._succ.items(): …` at level `i` -/
 def levelsAt (t : Tbl) (ord : List Nat) (i : Nat) : List LevelItem :=
-  ord.filterMap fun u =>
-    if u = 1 then (if t.nvars = i then some (1, i, none) else none) else
-    match t.succ[u]? with
-    | some n => if n.lvl = i then some (u, i, some (n.lo, n.hi)) else none
-    | none => none
+  ord.filterMap (levelItem? t i)
 
 /-- `BDD.levels(skip_terminals)`: `n = len(self.vars) - 1 if skip_terminals else len(self.vars)`,
 `for i in range(n, -1, -1)` — the bottom level first -/
